@@ -23,3 +23,17 @@ Section Edits.
 
   Definition within (ref w : word) (k : nat) : Prop := exists n, n <= k /\ edits ref w n.
 End Edits.
+
+(* the classical Levenshtein distance (recursive definition), used to cross-check the
+   derivation relation when all three kinds are enabled *)
+Fixpoint lev (r : word) : word -> nat :=
+  match r with
+  | [] => fun w => length w
+  | c :: r' =>
+    fix lev_r (w : word) : nat :=
+      match w with
+      | [] => S (length r')
+      | a :: w' => Nat.min (if Nat.eqb c a then lev r' w' else S (lev r' w'))
+                           (Nat.min (S (lev_r w')) (S (lev r' w)))
+      end
+  end.
